@@ -7,10 +7,10 @@ from present import Presenter
 
 MODEL_TARGETS = ["model/Ser.vo", "spec/Denote.vo"]
 COQ_TARGETS = ["props/C02.vo"]
-THEOREMS = [("C02", ["C02_canonical", "C02_to_datum", "C02_sound", "C02_sound_node", "C02_unnamed_never_union", "C02_named_selects_branch", "C02_decimal_string",
+THEOREMS = [("C02", ["C02_canonical", "C02_to_datum", "C02_sound", "C02_sound_node", "C02_nopanic", "C02_unnamed_never_union", "C02_named_selects_branch", "C02_decimal_string",
                      "C02_int_range", "C02_long_range", "C02_enum_index", "C02_enum_symbol", "C02_fixed_length", "C02_duration_length",
                      "C02_string_utf8", "C02_decimal_fixed_fit"])]
-PROOF_FILES = ["proofs/SerProofs.v", "proofs/SerLeafProofs.v", "props/C02.v", "proofs/SerSoundProofs.v", "proofs/SerSoundDecimal.v", "proofs/SerSoundBytes.v", "proofs/RecordProofs.v", "proofs/SerContractProofs.v"]
+PROOF_FILES = ["proofs/SerProofs.v", "proofs/SerLeafProofs.v", "props/C02.v", "proofs/SerSoundProofs.v", "proofs/SerSoundDecimal.v", "proofs/SerSoundBytes.v", "proofs/RecordProofs.v", "proofs/SerContractProofs.v", "proofs/SerSafetyProofs.v"]
 TRUSTED_BASE = [
     "Coq 8.16.1 kernel; no axioms (Print Assumptions: closed)",
     "translators/gen_union.py: the union lookup priorities, registered names and the closures' code shape are regenerated / pinned from union_variants_per_type_lookup.rs on every run; theorems about the table are re-proved against it",
